@@ -591,6 +591,10 @@ func (in *input) readToken() {
 					in.pos = in.token.pos
 					in.Error("unexpected EOF in string")
 				}
+				if in.peekRune() == '\n' {
+					// A backslash does not continue a string onto the next line.
+					in.Error("unexpected newline in string")
+				}
 				in.readRune()
 			}
 		}
